@@ -3,4 +3,8 @@ package lexh
 // Harnesses lists the harness entry points of this package for native playback.
 var Harnesses = map[string]func(){
 	"C16": C16,
+	"C08": C08,
+	"C07": C07,
+	"C11": C11,
+	"C15": C15,
 }
